@@ -75,14 +75,6 @@ Proof.
 Qed.
 
 (* ------------------------------------------------------------------ tilde *)
-Lemma tpl_go_plain G NM o r : ~ In 36 o -> tpl_go G NM 0 (o ++ r) = o ++ tpl_go G NM 0 r.
-Proof.
-  induction o as [|c o IH]; intros H; [reflexivity|].
-  cbn [app tpl_go]. destruct (c =? 36) eqn:E.
-  - apply N.eqb_eq in E. exfalso. apply H. left. exact E.
-  - rewrite IH; [reflexivity|]. intros Hi. apply H. right. exact Hi.
-Qed.
-
 Lemma span_not_nl_all s : ~ In 10 s -> span not_nl s = (s, []).
 Proof.
   induction s as [|c s IH]; intros H; [reflexivity|]. cbn [span]. unfold not_nl at 1.
@@ -91,17 +83,19 @@ Proof.
   - cbn [negb]. rewrite IH; [reflexivity|]. intros Hi. apply H. right. exact Hi.
 Qed.
 
-Theorem expand_home_spec W rest :
-  ~ In 36 (home W) -> ~ In 10 rest ->
-  expand_home_tok W (TNone, 126 :: rest) = (TNone, home W ++ rest).
+Lemma span_rebuild p (s : str) : fst (span p s) ++ snd (span p s) = s.
 Proof.
-  intros Hh Hr. unfold expand_home_tok. cbn [fst snd tag_is_empty tag_eqb strip_prefix].
-  cbn [N.eqb Pos.eqb]. unfold home_replace, split_nl. rewrite (span_not_nl_all rest Hr).
-  unfold expand_template.
-  replace (fmt1 src_home_template (home W)) with (home W ++ [36; 116; 97; 105; 108])
-    by (cbn; reflexivity).
-  rewrite tpl_go_plain by exact Hh. rewrite app_nil_r. f_equal. f_equal.
-  cbn. apply app_nil_r.
+  induction s as [|c s IH]; [reflexivity|]. cbn [span]. destruct (p c); [|reflexivity].
+  destruct (span p s) as [a b]. cbn [fst snd app] in *. rewrite IH. reflexivity.
+Qed.
+
+(** since 1c7eddf for EVERY home directory (it is text), and for every rest (newlines included) *)
+Theorem expand_home_spec W rest : expand_home_tok W (TNone, 126 :: rest) = (TNone, home W ++ rest).
+Proof.
+  unfold expand_home_tok. cbn [fst snd tag_is_empty tag_eqb strip_prefix].
+  cbn [N.eqb Pos.eqb]. unfold home_replace, split_nl.
+  pose proof (span_rebuild not_nl rest) as E. destruct (span not_nl rest) as [tl post]. cbn [fst snd] in E.
+  rewrite <- app_assoc, E. reflexivity.
 Qed.
 
 Theorem expand_home_other W tg s : tg <> TNone \/ strip_prefix [126] s = None -> expand_home_tok W (tg, s) = (tg, s).
@@ -135,8 +129,8 @@ Lemma single_alternative_group :
   brace_getitem (s2l "{a}{b,c}") 0 = Ok ([s2l "{a}b"; s2l "{a}c"], []).
 Proof. vm_compute. reflexivity. Qed.
 
-(** HOME=/h$tail ; echo ~/x : the home directory is used as a replacement template *)
-Lemma home_is_a_template :
+(** HOME=/h$tail ; echo ~/x : since 1c7eddf the home directory is text (regression example) *)
+Lemma home_with_dollar :
   expand_home_tok (mkWorld (fun _ => None) (fun _ => None) 0%Z 1%Z (s2l "/h$tail") (fun _ => None) (fun _ => None)
-                           (fun _ => None)) (TNone, s2l "~/x") = (TNone, s2l "/h/x/x").
+                           (fun _ => None)) (TNone, s2l "~/x") = (TNone, s2l "/h$tail/x").
 Proof. vm_compute. reflexivity. Qed.
